@@ -113,6 +113,8 @@ package keeper
 //@ ensures only_that_binding: err == NoErr ==> (let s := ctxOf(old(raw), reqOf(old(raw), requestID).RequestContextId).ServiceName in let p := reqOf(old(raw), requestID).Provider in
 //@      raw == old(raw)[KBind(s, p) := raw[KBind(s, p)]] && bindFound(raw, s, p))
 //@ ensures error_changes_nothing: err != NoErr ==> raw == old(raw) && bal == old(bal) && supply == old(supply)
+//@ ensures [C04] fails_only_if_the_burn_cannot_be_made: (err == NoErr) <==> (!hasNeg(bindOf(old(raw), reqSvc(old(raw), requestID), reqProv(old(raw), requestID)).Deposit, slashBurn(old(raw), requestID)) &&
+//@      canPay(old(bal), depositAcc, slashBurn(old(raw), requestID)))
 
 //@ func (Keeper).GetExchangedPrice
 //@ props C07 C01 C06
@@ -316,6 +318,7 @@ package keeper
 //@ props C06 C01
 //@ requires wf: WF(raw)
 //@ loop 0 invariant seen: 0 <= iter && iter <= len(providers)
+//@ loop 0 invariant kept_have_bindings: len(newProviders) <= iter && (forall i Int :: {newProviders[i]} 0 <= i && i < len(newProviders) ==> bindFound(raw, serviceName, newProviders[i]))
 //@ loop 0 invariant filtered_so_far: allBase(raw, serviceName, providers) ==> newProviders == filtIt(raw, ctxTime(ctx), serviceName, timeout, serviceFeeCap, consumer, providers, iter)
 //@ loop 0 invariant total_so_far: allBase(raw, serviceName, providers) ==> totalPrices == totIt(raw, ctxTime(ctx), serviceName, timeout, serviceFeeCap, consumer, providers, iter)
 //@ ensures [C06] exactly_the_eligible_providers_in_order: err == NoErr && allBase(raw, serviceName, providers) ==>
@@ -323,6 +326,7 @@ package keeper
 //@ ensures [C06,C01] total_is_the_sum_of_their_prices: err == NoErr && allBase(raw, serviceName, providers) ==>
 //@      result1 == totIt(raw, ctxTime(ctx), serviceName, timeout, serviceFeeCap, consumer, providers, len(providers))
 //@ ensures [C11] no_error_when_prices_are_in_base_denom: allBase(raw, serviceName, providers) ==> err == NoErr
+//@ ensures [C06] only_providers_with_bindings: err == NoErr ==> len(result0) <= len(providers) && (forall i Int :: {result0[i]} 0 <= i && i < len(result0) ==> bindFound(raw, serviceName, result0[i]))
 
 //@ func (Keeper).buildRequest
 //@ props C08 C07 C01
@@ -362,3 +366,19 @@ package keeper
 //@ modifies raw, cblog
 //@ ensures [C09] context_paused_batch_completed: raw == old(raw)[KCtx(requestContextID) := enc_RequestContext(requestContext[BatchState := BATCHCOMPLETED][State := PAUSED])]
 //@ ensures [C12] state_callback_for_module_contexts: cblog == (len(requestContext.ModuleName) > 0 ? cbState(old(cblog), requestContextID, cause) : old(cblog))
+
+// ---------------------------------------------------------------- batch clean-up (C16)
+//@ func (Keeper).CleanBatch
+//@ props C16
+//@ modifies raw
+//@ loop 0 invariant pos_in_range: 0 <= iterator_pos && iterator_pos <= itCount(iterator_snap, iterator_pfx)
+//@ loop 0 invariant snapshot: iterator_snap == old(raw) && iterator_pfx == PReqByCtx(requestContextID, requestContext.BatchCounter)
+//@ loop 0 invariant cleaned_so_far: forall k Key :: {raw[k]} raw[k] ==
+//@      (((is_KReq(k) && inPfx(k, iterator_pfx) && iterator_snap[k] != bnil && itIdx(iterator_snap, iterator_pfx, k) < iterator_pos) ||
+//@        (is_KResp(k) && inPfx(KReq(kresp_rid(k)), iterator_pfx) && iterator_snap[KReq(kresp_rid(k))] != bnil && itIdx(iterator_snap, iterator_pfx, KReq(kresp_rid(k))) < iterator_pos)) ? bnil : iterator_snap[k])
+//@ ensures [C16] removes_exactly_the_batch_records: forall k Key :: {raw[k]} raw[k] == (cleanedKey(old(raw), requestContextID, requestContext.BatchCounter, k) ? bnil : old(raw)[k])
+
+//@ func (Keeper).CompleteServiceContext
+//@ props C16 C09
+//@ modifies raw
+//@ ensures [C16] context_removed: raw == old(raw)[KCtx(requestContextID) := bnil]
